@@ -57,6 +57,11 @@ func scenarios(tier string) []svc.Scenario {
 		{Name: "view-tag-snapshot", Program: []string{"addtag:tag/d=cdata:foo[23]", "import:P1+P2", "view.open:v1", "import:P3", "view.open:v2"}},
 		// one converter attached to two tags with different matches, then its executable is rewritten
 		{Name: "converter-two-tags-restarted", Converter: true, Program: []string{"import:P1+P2", "addtag:tag/p=cport:1", "converters:tag/p=conv", "addtag:service/q=sport:80", "converters:service/q=conv", "convrestart:conv"}},
+		// two invalidation sources inside one tagging-job window: a mark edit and an import that adds streams
+		// both land while the job of a tag that refers to the mark is in flight
+		{Name: "mark-edit-and-import-during-job", Program: []string{"import:P1+P2", "addtag:mark/m=id:0", "addtag:tag/t=mark:m", "markadd:mark/m=1", "import:P4"}},
+		// one converter attached to a mark tag and to a query tag that match the same stream; the mark is taken away
+		{Name: "converter-on-mark-and-tag-unmark", Converter: true, Program: []string{"import:P1", "addtag:mark/m=id:0", "converters:mark/m=conv", "addtag:tag/p=cport:1", "converters:tag/p=conv", "markdel:mark/m=0"}},
 		{Name: "two-tags", Program: []string{"addtag:tag/p=cport:1", "addtag:tag/d=cdata:foo3", "import:P1", "import:P3"}},
 	}
 	if tier == "thorough" {
